@@ -3,7 +3,7 @@ sys.path.insert(0, os.path.dirname(os.path.abspath(__file__)))
 import build_common as bc
 
 ID = "C05"
-LEVEL = "other"
+LEVEL = "proof"
 COQ_TARGETS = ["Props/Properties_C05.vo", "Props/Properties_C05_spec.vo", "Props/Properties_C05_heap.vo", "Extract/ExtractBuild.vo"]
 PROPS_FILES = ["Props/Properties_C05.v", "Props/Properties_C05_spec.v", "Props/Properties_C05_heap.v"]
 RUNS = [dict(name="valid", harness="c04", driver="build", model_ml="build_model", harness_args=["-mode", "c05"])]
@@ -22,15 +22,19 @@ ASSUMPTIONS = ["64-bit int; segments < 2^32 bytes, segment count < 2^32; bytes a
                "a failed pointer-writing / allocating op ends the compared run (the model keeps no state for a failed op)",
                "fuel of write_ptr/copy_struct: theorems are about Ok results, which are never produced by fuel exhaustion"]
 TECHNIQUE = "Coq proof over an executable model + extracted-model/implementation differential run"
-LEVEL_TEXT = ('Partial proof + differential run. Proved for all arenas/capacities: allocated regions are zeroed, aligned, inside len<=cap and pairwise disjoint; segments stay word aligned and only grow under SetPtr/Set/SetRoot/SetStruct/CopyFrom with all copy branches; every placed pointer resolves with well-formed landing pads; placed_struct_is_spec_valid: the struct pointer just written is resolved by the specification decoder (coq/Spec) to exactly its target, inside the message; C05_heap_inv_sublang (HeapOps.v, HeapValid.v): for the sub-language listed in LEVEL_NOTE every reachable state of every program in every arena configuration with a root word satisfies valid_message = VOk (pool = table, hinv preserved by every op, hinv implies valid_message); heap_inv_partial2 (HeapInv.v): a pointer-level invariant hinv over an object table and a pad table - every pointer slot and the root resolve under the strict rules into exactly one table object, regions inside their segments and pairwise disjoint - preserved by constructors of structs / non-composite lists, data writes inside an object, and setting any slot or the root to a table object with all three placements incl. overwrites; heap_inv_partial: an invariant over all op lists of the interpreter (well-formed segments + sound handle pool) in every reachable state. The full heap_inv (every reachable state satisfies valid_message) is checked by executing the extracted valid_message + spec tree on the real Marshal bytes of every program.')
-LEVEL_NOTE = ("Proved over op lists (C05_heap_inv_sublang): valid_message = VOk in every reachable state, all arena "
-              "configurations with a root word, for the sub-language NewStruct, NewUInt8..64List, NewBitList, NewPointerList, "
-              "NewVoidList, NewData/NewText, SetUint8..64, SetBit, UInt8..64List.Set, BitList.Set, Struct.SetPtr and Message.SetRoot within one message (null, "
-              "empty-struct, near, far+pad, double-far+pad, overwrites) and the read-only accessors. NOT covered by the theorem, "
-              "only by the runs (extracted valid_message + spec decoder on the real bytes): NewCompositeList and composite "
-              "lists, List.Struct members, PointerList.Set, all copy paths of writePtr (SetStruct, "
-              "CopyFrom, list members, cross-message), capabilities, reopen, handle-creating read ops, arenas without a root "
-              "word. marshal_header_ok is C14's.")
+LEVEL_TEXT = ('Proof for a sub-language of the builder API (exactly listed in LEVEL_NOTE) + differential run for everything. C05_heap_inv_sublang (HeapOps.v, HeapValid.v): every reachable state of every program of the sub-language in every arena configuration with a root word satisfies valid_message = VOk (ghost object table; every pool handle is a view of it; hinv preserved by every op; hinv implies valid_message). hinv (HeapInv.v): every pointer slot and the root resolve under the strict rules into exactly one table object (structs, lists of every kind incl. composite lists with their tag word), regions inside their segments and pairwise disjoint. Also proved for all arenas/capacities and ALL ops: allocated regions are zeroed, aligned, inside len<=cap and pairwise disjoint; segments stay word aligned and only grow under SetPtr/Set/SetRoot/SetStruct/CopyFrom with all copy branches; every placed pointer resolves with well-formed landing pads; placed_struct_is_spec_valid; heap_inv_partial: an invariant over all op lists of the interpreter (well-formed segments + sound handle pool). The full heap_inv (all ops) is checked by executing the extracted valid_message + spec tree on the real Marshal bytes of every program.')
+LEVEL_NOTE = ("Theorem C05_heap_inv_sublang (valid_message = VOk in every reachable state, all arena configurations with a "
+              "root word, while the message has < 2^32 segments) covers: ALL constructors incl. NewCompositeList (tag word), "
+              "NewStruct, NewUInt8..64List, NewBitList, NewPointerList, NewVoidList, NewData/NewText; ALL data setters "
+              "(SetUint8..64, SetBit on structs and on List.Struct members; UInt8..64List.Set on primitive and composite lists; "
+              "BitList.Set); the within-message pointer ops Struct.SetPtr (on structs and on list members), PointerList.Set "
+              "(pointer and composite lists), Message.SetRoot with a whole object as source (null, empty-struct, near, far+pad, "
+              "double-far+pad, overwrites; composite targets point at the tag word); List.Struct (member handles) and the "
+              "read-only accessors. Run-time premise plain_run: the SOURCE handle of a pointer setter is never a list member "
+              "(that case is a copy path). NOT covered by the theorem, only by the runs (extracted valid_message + spec "
+              "decoder on the real bytes of every generated program): all copy paths of writePtr (SetStruct, CopyFrom, list "
+              "members as sources, cross-message), capabilities, reopen, the handle-creating read ops root / sptr / plat "
+              "(need readPtr tied to resolve_ptr), arenas without a root word. marshal_header_ok is C14's.")
 DESIGN_REF = "DESIGN.md section 6, C05"
 
 classify = bc.classify
